@@ -77,7 +77,7 @@ func (r *runner) classify(tag uint16) (string, *req) {
 	for _, q := range r.reqs {
 		if q.tag == tag && q.replies == 0 && !(q.flushedBy != nil && q.flushedBy.ackTaken) && q.class != "dup" {
 			last = q
-			if q.dispatched && !q.released && q.flushedBy == nil {
+			if q.dispatched && !q.released && q.flushedBy == nil && !q.maybeFlushed {
 				certain = true
 			}
 		}
@@ -322,6 +322,8 @@ func runCase(seed uint64, idx int, prop string, thorough bool) caseOut {
 	switch {
 	case idx == 0:
 		r = runWriteFailWhileCompleting(rng)
+	case prop == "C11" && idx >= 2 && idx%4 == 2:
+		r = runFS(rng, idx == 2)
 	case idx == 1 || (idx < 6 && prop == "C07"):
 		r = runFlushReuseLate(rng, 48)
 	default:
